@@ -8,8 +8,8 @@
     gets stuck) and framing. *)
 From stdpp Require Import gmap strings.
 From EV Require Import Base.Str Model.Value Model.Keyspace Model.Reply Model.Prog Model.Dispatch Model.RespWire.
-From EV Require Import Model.CmdList Model.CmdString.
-From EV Require Import Proofs.RespWireProofs Proofs.WireProofs Proofs.WireReplies.
+From EV Require Import Model.CmdList Model.CmdString Model.CmdHash Model.CmdSet Model.CmdZSet Model.CmdGeneric.
+From EV Require Import Proofs.RespWireProofs Proofs.WireProofs Proofs.WireReplies Proofs.WireRepliesAll.
 Local Open Scope Z_scope.
 
 (** The reader gives back exactly the value that was marshalled and the bytes that follow it — values of any
@@ -45,18 +45,48 @@ Theorem C12_reply_frame : forall r rest,
 Proof. exact reply_frame. Qed.
 Print Assumptions C12_reply_frame.
 
-(** Full statement: for every world [w], connection [c], argument vector [argv] and continuation [rest],
-      let r := reply_of (snd (wire_exec w c argv)) in decode_strict (reply_bytes r +:+ rest) = DOk (reply_value r) rest.
-    Proved ([_partial]): under "the leaves of the selected handler are [reply_ok]", which is itself proved for
-    everything [wire_exec] answers on its own and for the list and string handlers (next two theorems); for
-    the hash / set / sorted-set / generic handlers it is a hypothesis here and the strict parser of the harness
-    checks every generated reply. *)
-Theorem C12_reply_wellformed_partial : forall w c argv rest,
-  (forall name h, handler_of name = Some h -> leaves rok (h argv)) ->
+(** Every reply the server can give is exactly one well-formed frame: for every world [w] (any keyspace, any
+    clock, any connection table), connection [c], argument vector [argv] (any command word — one of the 97
+    words of [handler_of], a connection command, or unknown —, any arity, any argument bytes) and whatever
+    bytes [rest] follow on the wire, a strict RESP parser reads the reply as exactly the value [reply_value r]
+    (so a bulk string carries the stored bytes intact: CR, LF, NUL, none) and leaves [rest] untouched.
+    No hypothesis: [typed_leaves] is proved for every handler of every module (next theorem). *)
+Theorem C12_reply_wellformed : forall w c argv rest,
   let r := reply_of (snd (wire_exec w c argv)) in
   decode_strict (reply_bytes r +:+ rest) = DOk (reply_value r) rest.
-Proof. exact reply_wellformed_partial. Qed.
-Print Assumptions C12_reply_wellformed_partial.
+Proof. exact reply_wellformed. Qed.
+Print Assumptions C12_reply_wellformed.
+
+(** What discharges the hypothesis of the former [_partial] statement: every [Ret] leaf of every handler of
+    [handler_of], under all arguments of all continuations (hence from every state, in every database), is a
+    reply built from the typed constructors whose simple strings contain no CR / LF. *)
+Theorem C12_handlers_typed_leaves : forall name h argv,
+  handler_of name = Some h -> typed_leaves (h argv).
+Proof. exact handler_typed_leaves. Qed.
+Print Assumptions C12_handlers_typed_leaves.
+
+(** The same for a handler run directly (embedded API, AOF / raft replay), from every state [s] in every
+    database [d], and for EVERY selection function [pick] standing for SPOP / SRANDMEMBER's random draw. *)
+Theorem C12_reply_wellformed_handlers : forall pick name h argv d s rest,
+  first_some [list_handler name; hash_handler name; set_handler pick name; zset_handler name;
+              generic_handler name; string_handler name] = Some h ->
+  let r := snd (run_seq d (h argv) s) in
+  decode_strict (reply_bytes r +:+ rest) = DOk (reply_value r) rest.
+Proof. exact handler_reply_wellformed. Qed.
+Print Assumptions C12_reply_wellformed_handlers.
+
+(** Floats as Go prints them.  The model renders [RFloat f] as a bulk string of its canonical text; the Go
+    handlers send [strconv.FormatFloat(f, 'f', -1, 64)], some as [+text] (ZSCORE, ZINCRBY, ZADD INCR,
+    HINCRBYFLOAT), some as [$len text].  For ANY text function [ftext] and ANY choice [fsimple] of simple / bulk
+    per float, the statement holds under the single assumption that the text is a line (no CR, no LF) —
+    FormatFloat's alphabet is [0-9 + - . e I n f N a].  It is a hypothesis of this theorem, not an axiom. *)
+Theorem C12_reply_wellformed_float_text : forall (ftext : fl -> string) (fsimple : fl -> bool),
+  (forall f, no_crlf (ftext f) = true) ->
+  forall w c argv rest,
+  let r := reply_of (snd (wire_exec w c argv)) in
+  decode_strict (reply_bytes_ft ftext fsimple r +:+ rest) = DOk (reply_value_ft ftext fsimple r) rest.
+Proof. exact reply_wellformed_ft. Qed.
+Print Assumptions C12_reply_wellformed_float_text.
 
 Theorem C12_reply_wellformed_list_string : forall name h argv d s rest,
   list_handler name = Some h \/ string_handler name = Some h ->
@@ -143,4 +173,10 @@ Qed.
 Example C12_example :
   serve w0 1 [ping +:+ "*2" +:+ CRLF +:+ "$4" +:+ CRLF +:+ "EC"; "HO" +:+ CRLF +:+ "$1" +:+ CRLF +:+ "x" +:+ CRLF +:+ ping]
   = ["+PONG" +:+ CRLF; "$1" +:+ CRLF +:+ "x" +:+ CRLF; "+PONG" +:+ CRLF].
+Proof. vm_compute. reflexivity. Qed.
+
+(** Non-vacuity of [C12_reply_wellformed]: a value with CR LF inside, stored and read back, is one bulk frame. *)
+Example C12_wellformed_example :
+  let w1 := fst (wire_exec w0 1 ["SET"; "k"; "a" +:+ CRLF +:+ "+b"]) in
+  reply_bytes (reply_of (snd (wire_exec w1 1 ["GET"; "k"]))) = "$5" +:+ CRLF +:+ "a" +:+ CRLF +:+ "+b" +:+ CRLF.
 Proof. vm_compute. reflexivity. Qed.
